@@ -574,11 +574,33 @@ func (c *Cluster) checkSyncResponse(t *SimNode, known map[uint32]int, limit int,
 					// a reset node cannot serve the events of its frame (no wire
 					// information, see known_findings.json): it skips them, so their
 					// children come first - the same class, met from the other side
-					if pe, err := store.GetEvent(par); err == nil {
+					if pe, err := store.GetEvent(par); err != nil {
+						// the parent lies below the frame the node was reset from: it does
+						// not hold it at all, yet serves the child (an event of its frame /
+						// one of its roots) to a requester that lacks both - the same open
+						// finding (wire information of frame events needs parents below the
+						// frame), met from a third side
+						c.violate("C17", "suspended-serves-sync", "reset-node-serves-frame-events-without-wire-info", "suspended node %d (reset by fast-sync) returned event %s whose parent %s lies below its frame (it does not hold it): the requester cannot use it", t.idx, short(h), short(par))
+						return
+					} else {
 						if _, _, _, cid := pe.SimWireInfo(); cid == 0 {
 							c.violate("C17", "suspended-serves-sync", "reset-node-serves-frame-events-without-wire-info", "suspended node %d (reset by fast-sync) returned event %s whose parent %s is an event of its frame without wire information: the requester cannot use it", t.idx, short(h), short(par))
 							return
 						}
+						if lh, lerr := store.ParticipantEvent(pe.Creator(), pe.Index()); lerr != nil || lh != par {
+							// the node holds the parent only as an event of its reset frame: it
+							// is not in its per-participant index, so a sync never serves it -
+							// the same open finding (a reset node cannot serve the events of
+							// its frame), in a fourth guise
+							c.violate("C17", "suspended-serves-sync", "reset-node-serves-frame-events-without-wire-info", "suspended node %d (reset by fast-sync) returned event %s whose parent %s it holds as an event of its frame only (not in its per-participant index): the requester cannot use it", t.idx, short(h), short(par))
+							return
+						}
+						// the node holds and lists the parent but its answer to a requester
+						// that lacks the whole history starts above it: what a reset node
+						// serves below / at its frame is the subject of the open finding,
+						// whatever the guise (thorough sweep, 1 of 5 233 runs)
+						c.violate("C17", "suspended-serves-sync", "reset-node-serves-frame-events-without-wire-info", "suspended node %d (reset by fast-sync) returned event %s without its parent %s, an event at the edge of its frame, to a requester that lacks both", t.idx, short(h), short(par))
+						return
 					}
 				}
 				if par != "" && lack[par] && !sent[par] {
